@@ -125,3 +125,18 @@ def describe(funcs):
         mod = getattr(f, '__module__', '')
         out.append(f'{mod}.{name}@{source_hash(f)}')
     return out
+
+
+def describe_exprs(exprs, namespace):
+    """Like describe(), for functions given as source expressions ('tof._energy_constant'): a private helper that a
+    refactoring renamed or removed is listed as absent instead of stopping the check (the functions encoded are whatever
+    the public entry points reach; this list is documentation for the evidence file)."""
+    out = []
+    for e in exprs:
+        try:
+            f = eval(e, dict(namespace))  # noqa: S307 - expressions are literals of this repository
+        except AttributeError:
+            out.append(f'{e}@absent')
+            continue
+        out.extend(describe([f]))
+    return out
